@@ -373,6 +373,65 @@ fn deep_texts() -> Vec<(&'static str, Box<dyn Fn(usize) -> String + Sync + Send>
     ]
 }
 
+/// Flat chains: nesting 0 whatever the number of operands. (name, operand, separator(s))
+fn flat_chains() -> Vec<(&'static str, Box<dyn Fn(usize) -> String + Sync + Send>)> {
+    fn chain(n: usize, operand: &'static str, ops: &'static [&'static str]) -> String {
+        let mut s = String::from(operand);
+        for k in 1..n {
+            s.push_str(ops[k % ops.len()]);
+            s.push_str(operand);
+        }
+        s
+    }
+    vec![
+        ("and", Box::new(|n| chain(n, "tru_m", &[" and "]))),
+        ("or", Box::new(|n| chain(n, "tru_m", &[" or "]))),
+        ("xor", Box::new(|n| chain(n, "tru_m", &[" xor "]))),
+        ("and-symbol", Box::new(|n| chain(n, "tru_m", &["&&"]))),
+        ("or-symbol", Box::new(|n| chain(n, "tru_m", &[" || "]))),
+        ("xor-symbol", Box::new(|n| chain(n, "tru_m", &["^^"]))),
+        ("xor-of-comparisons", Box::new(|n| chain(n, "num_m == 1", &[" xor ", " ^^ "]))),
+        ("mixed-precedence", Box::new(|n| chain(n, "tru_m", &[" or ", " and ", " xor "]))),
+        ("mixed-precedence-2", Box::new(|n| chain(n, "tru_m", &[" xor ", " or ", " xor ", " and "]))),
+        ("array-and", Box::new(|n| format!("any(({}))", chain(n, "l_tru_m", &[" and "])))),
+        ("array-or", Box::new(|n| format!("any(({}))", chain(n, "l_tru_m", &[" or "])))),
+        ("array-xor", Box::new(|n| format!("all(({}))", chain(n, "l_tru_m", &[" xor "])))),
+        ("xor-in-parens", Box::new(|n| format!("((({})))", chain(n, "tru_m", &[" xor "])))),
+        ("xor-in-call-argument", Box::new(|n| format!("neg1(({}))", chain(n, "tru_m", &[" xor "])))),
+    ]
+}
+
+/// Maximum bracket depth of a JSON text (iterative; strings skipped).
+fn json_depth(js: &str) -> usize {
+    let (mut d, mut max, mut in_str, mut esc) = (0usize, 0usize, false, false);
+    for c in js.bytes() {
+        if in_str {
+            if esc {
+                esc = false;
+            } else if c == b'\\' {
+                esc = true;
+            } else if c == b'"' {
+                in_str = false;
+            }
+            continue;
+        }
+        match c {
+            b'"' => in_str = true,
+            b'[' | b'{' => {
+                d += 1;
+                max = max.max(d);
+            }
+            b']' | b'}' => d = d.saturating_sub(1),
+            _ => {}
+        }
+    }
+    max
+}
+
+fn budget_of(variant: &str) -> usize {
+    stack_budget(variant)
+}
+
 pub fn stack_budget(variant: &str) -> usize {
     match variant {
         "dbg" => 8 << 20,
@@ -487,6 +546,131 @@ pub fn run(run: &Run) {
             }
         });
     }
+
+    // ---- flat chains have nesting 0 however many operands they have: accepted
+    // with d = 0, and the depth of the tree they produce (observed as the
+    // bracket depth of the serialised AST) does not grow with the operand count
+    let flat = flat_chains();
+    if run.opts.wants("flat") && !run.is_child() {
+        run.exhaustive("flat", true);
+        run.parallel("flat", flat.len() as u64, |i, l| {
+            let (name, mk) = &flat[i as usize];
+            let mut depths: Vec<(usize, usize)> = Vec::new();
+            let extra_nesting = match *name {
+                "array-and" | "array-or" | "array-xor" | "xor-in-call-argument" => 2u16,
+                "xor-in-parens" => 3,
+                _ => 0,
+            };
+            for n in [2usize, 3, 4, 5, 8, 33, 400] {
+                let text = mk(n);
+                l.evals += 1;
+                let res = guard(|| {
+                    let mut parser = eng.scheme.parser();
+                    parser.set_max_nesting_depth(extra_nesting);
+                    parser.parse(&text).map_err(|e| e.to_string()).map(|ast| serde_json::to_string(&ast).unwrap_or_default())
+                });
+                match res {
+                    Ok(Ok(js)) => depths.push((n, json_depth(&js))),
+                    other => {
+                        run.violation(
+                            &format!("C13/flat-chain-rejected/{}", name),
+                            "accept-iff-nesting<=d",
+                            "flat",
+                            i,
+                            json!({"chain": name, "operands": n, "limit": extra_nesting, "outcome": format!("{:?}", other.map(|r| r.map(|_| ())))}),
+                        );
+                        return;
+                    }
+                }
+            }
+            // the 2-operand chain of a mixed-precedence family has fewer levels
+            // than the longer ones; from 5 operands on every level is present
+            let reference = depths.iter().find(|(n, _)| *n == 8).map(|x| x.1).unwrap_or(0);
+            for (n, d) in &depths {
+                if *n >= 8 && *d != reference {
+                    run.violation(
+                        &format!("C13/tree-depth-grows-with-operand-count/{}", name),
+                        "depth-independent-of-chain-length",
+                        "flat",
+                        i,
+                        json!({"chain": name, "json_depth_by_operand_count": depths}),
+                    );
+                    break;
+                }
+                if *n < 8 && *d > reference {
+                    run.violation(
+                        &format!("C13/tree-depth-grows-with-operand-count/{}", name),
+                        "depth-independent-of-chain-length",
+                        "flat",
+                        i,
+                        json!({"chain": name, "json_depth_by_operand_count": depths}),
+                    );
+                    break;
+                }
+            }
+            run.distinct(hash_str(&format!("flat|{}", name)));
+            run.sample("flat", 3, || json!({"chain": name, "json_depth_by_operand_count": depths}));
+        });
+    }
+
+    // ---- ... and the whole life cycle of a 20 000-operand chain needs no more
+    // stack than that of a 4-operand chain (one process per chain kind)
+    run.isolated("flat-long", flat.len() as u64, 300, "C13", |i, l| {
+        let (name, mk) = &flat[i as usize];
+        let mut used_by_n: Vec<(usize, usize)> = Vec::new();
+        for n in [4usize, 20_000] {
+            let text = mk(n);
+            let scheme = eng.scheme.clone();
+            let env2 = eng.env.clone();
+            let m = crate::stack::measure(budget_of(&run.opts.variant), move || {
+                let ast = scheme.parse(&text).map_err(|e| e.to_string())?;
+                let json = serde_json::to_string(&ast).map_err(|e| e.to_string())?;
+                let mut h = std::collections::hash_map::DefaultHasher::new();
+                std::hash::Hash::hash(&ast, &mut h);
+                let copy = ast.clone();
+                let eq = copy == ast;
+                let filter = ast.compile();
+                let mut r = Rng::new(5);
+                let vals = gen_ctx(&mut r, &env2);
+                let ctx = crate::engine::build_ctx(&scheme, &env2, &vals, &ListState::default());
+                let res = filter.execute(&ctx).map_err(|e| e.to_string())?;
+                drop(filter);
+                drop(copy);
+                Ok::<(usize, bool, bool), String>((json_depth(&json), res, eq))
+            });
+            l.evals += 1;
+            match m {
+                Some((Ok(_), used)) => used_by_n.push((n, used)),
+                Some((Err(e), _)) => {
+                    run.violation(
+                        &format!("C13/flat-chain-rejected/{}", name),
+                        "accept-iff-nesting<=d",
+                        "flat-long",
+                        i,
+                        json!({"chain": name, "operands": n, "error": e}),
+                    );
+                    return;
+                }
+                None => {
+                    run.inconclusive("stack measurement unavailable");
+                    return;
+                }
+            }
+        }
+        let (small, long) = (used_by_n[0].1, used_by_n[1].1);
+        run.note(&format!("stack_bytes_flat_{}", name), json!({"operands_4": small, "operands_20000": long}));
+        if long > small + small / 4 + (64 << 10) {
+            run.violation(
+                &format!("C13/recursion-grows-with-operand-count/{}", name),
+                "relative-stack",
+                "flat-long",
+                i,
+                json!({"chain": name, "life_cycle_stack_bytes_4_operands": small, "life_cycle_stack_bytes_20000_operands": long}),
+            );
+        }
+        run.distinct(hash_str(&format!("flat-long|{}", name)));
+        run.sample("flat-long", 4, || json!({"chain": name, "stack_bytes": used_by_n}));
+    });
 
     // ---- recursion stays bounded: whole life cycle of depth-128 filters on a
     // budgeted stack, and a 10^5-deep input must not use more stack than the
